@@ -134,6 +134,25 @@ def _pl_size(ck, P, cfg):
             ck.holds("C11.4", "send-size@mpi_remote_msg_send", c.where, "sends offsetof(pl) - preamble + pl_size = %d + pl_size bytes" % sf[1], cfg)
         elif sf is not None:
             ck.violated("C11.4", "send-size@mpi_remote_msg_send", c.where, "sends %s: does not match the receiver's arithmetic (%d + pl_size)" % (X.show(X.callee_args(c)[1])[:60], off_pl - off_dest), cfg)
+        else:
+            # not a linear form: evaluate it for representative payload sizes (below, at and above the pooled capacity)
+            from .. import ceval
+            size_e = Q.resolve_local(s, X.callee_args(c)[1])
+            keys = sorted({X.show(x) for x in size_e.walk() if x.k == "MemberExpr" and x.name == "pl_size"})
+            bad = unknown = None
+            for v in (0, 1, 31, 32, 33, 64, 100, 512, 4096):
+                got = ceval.ev(size_e, {k: v for k in keys})
+                if got is None:
+                    unknown = True
+                    break
+                if got != off_pl - off_dest + v and bad is None:
+                    bad = (v, got)
+            if unknown or not keys:
+                ck.inconclusive("C11.4", "send-size@mpi_remote_msg_send", c.where, "the number of bytes sent (%s) is not a function of the payload size alone" % X.show(size_e)[:60], cfg)
+            elif bad:
+                ck.violated("C11.4", "send-size@mpi_remote_msg_send", c.where, "a message with a %d byte payload is sent as %d bytes, the receiver's arithmetic expects %d + payload = %d: the payload arrives truncated (or bytes past the buffer are sent)" % (bad[0], bad[1], off_pl - off_dest, off_pl - off_dest + bad[0]), cfg)
+            else:
+                ck.holds("C11.4", "send-size@mpi_remote_msg_send", c.where, "sends %d + pl_size bytes for every payload size evaluated" % (off_pl - off_dest), cfg)
 
 
 def _capacity(ck, P, cfg):
